@@ -94,6 +94,26 @@ class CodeError(Exception):
         return "[%d] %s" % (self.code, self.message)
 
 
+class StatusError(Exception):
+    """a class whose constructor PARSES its argument (an HTTP status): the bare message makes it raise ValueError"""
+
+    def __init__(self, status) -> None:
+        self.status = int(status)
+        super().__init__("status %d" % self.status)
+
+
+class ResponseError(Exception):
+    """a class whose constructor dereferences its argument (a response object): the bare message makes it raise AttributeError"""
+
+    def __init__(self, response) -> None:
+        super().__init__(response.text)
+        self.response = None
+
+
+class _Resp:
+    text = "bad gateway"
+
+
 class Holder:
     class NestedError(Exception):
         """qualname 'Holder.NestedError': not resolvable by import_module(rsplit('.', 1)) -> documented fallback"""
@@ -151,7 +171,9 @@ EXC_KINDS = {
     "chained": [_chained],
     "keyerror": [lambda: KeyError("missing_key"), lambda: KeyError("k")],
     "custom_str": [lambda: PrefixedError("rate limited")],
-    "custom_ctor2": [lambda: CodeError(503, "unavailable")],
+    # constructors that do not accept the bare message: need more arguments (TypeError), parse it (ValueError),
+    # dereference it (AttributeError)
+    "custom_ctor2": [lambda: CodeError(503, "unavailable"), lambda: StatusError(404), lambda: ResponseError(_Resp())],
     "stdlib_ctor": [_json_decode_error, _unicode_error],
     "pydantic_validation": [_pydantic_error],
     # documented fallback to Exception (tests/runtime/test_tick_serialization.py::test_exception_roundtrip_unimportable):
